@@ -89,6 +89,8 @@ static const struct tpl_s tpls[] = {
 	{"sec1x6/lim62", 1, 6, {1, 2, 3, 4, 5, 6}, 1, 62},
 	/* MAX-SIMUL:0 (limit -1 here, 0 means unset): every occurrence is reported as not run, nothing is ever watched */
 	{"sec1x3/lim0", 1, 3, {1, 2, 3}, 1, -1},
+	/* kind 2: SECONDLY;INTERVAL=2;COUNT=6 from +2 with EXDATEs at +4 and +8: excluded occurrences are never run */
+	{"sec2x6-ex2", 2, 4, {2, 6, 10, 12}, 2, 0},
 };
 
 static size_t
@@ -127,6 +129,11 @@ tpl_body(const struct tpl_s *tp)
 		o += (size_t)snprintf(body + o, sizeof(body) - o, "\n");
 	} else if (tp->kind == 1) {
 		o += (size_t)snprintf(body + o, sizeof(body) - o, "RRULE:FREQ=SECONDLY;INTERVAL=%d;COUNT=%d\n", tp->interval, tp->nocc);
+	} else if (tp->kind == 2) {
+		char x1[32], x2[32];
+		tpl_stamp(x1, sizeof(x1), HX_T0 + 4);
+		tpl_stamp(x2, sizeof(x2), HX_T0 + 8);
+		o += (size_t)snprintf(body + o, sizeof(body) - o, "RRULE:FREQ=SECONDLY;INTERVAL=2;COUNT=6\nEXDATE:%s,%s\n", x1, x2);
 	}
 	if (tp->limit) {
 		o += (size_t)snprintf(body + o, sizeof(body) - o, "X-ECHS-MAX-SIMUL:%d\n", tp->limit < 0 ? 0 : tp->limit);
@@ -171,7 +178,7 @@ pick_colliding_uids(void)
 }
 
 /* ---------------- events ---------------- */
-enum {E_ADD, E_CANCEL, E_TICK_ONTIME, E_TICK_IDLE, E_TICK_LATE, E_EXIT, E_LIST, E_SCHED, E_ADDOWN, E_ADD2, E_TICK_EXACT, E_TICK_FAIL, E_STOP, E_TICKX, E_ADDGONE, E_ADDANON, E_ADDVANISH, E_ADDNOID};
+enum {E_ADD, E_CANCEL, E_TICK_ONTIME, E_TICK_IDLE, E_TICK_LATE, E_EXIT, E_LIST, E_SCHED, E_ADDOWN, E_ADD2, E_TICK_EXACT, E_TICK_FAIL, E_STOP, E_TICKX, E_ADDGONE, E_ADDANON, E_ADDVANISH, E_ADDNOID, E_ADDREV};
 struct ev_s {
 	int kind;
 	int user;	/* index into users[] */
@@ -253,17 +260,18 @@ evname(char *buf, size_t bsz, const struct ev_s *e)
 	case E_ADDANON: snprintf(buf, bsz, "ADD(peer 4242 whom the user data base does not know,%s,owner=%s)", uids[e->uid], e->arg2 == 0 ? "absent" : e->arg2 == 1 ? "1000" : "alice"); break;
 	case E_ADDVANISH: snprintf(buf, bsz, "ADD(%u,%s,%s; the user data base fails at look-up %d of the request)", users[e->user], uids[e->uid], tpls[e->arg].name, e->arg2); break;
 	case E_ADDNOID: snprintf(buf, bsz, "ADD(%u, an event with neither UID nor SUMMARY)", users[e->user]); break;
+	case E_ADDREV: snprintf(buf, bsz, "ADD(%u,%s: two revisions in one request, past then oneshot+2)", users[e->user], uids[e->uid]); break;
 	case E_CANCEL: snprintf(buf, bsz, "CANCEL(%u,%s)", users[e->user], uids[e->uid]); break;
 	case E_TICK_ONTIME: snprintf(buf, bsz, "TICK(on-time)"); break;
 	case E_TICK_IDLE: snprintf(buf, bsz, "TICK(idle)"); break;
 	case E_TICK_EXACT: snprintf(buf, bsz, "TICK(exact)"); break;
 	case E_TICK_FAIL: snprintf(buf, bsz, "TICK(on-time, %s)", e->arg ? "posix_spawn() fails with EAGAIN" : "pipe() fails with EMFILE"); break;
 	case E_TICK_LATE: snprintf(buf, bsz, "TICK(late-%d)", e->arg); break;
-	case E_EXIT: snprintf(buf, bsz, "EXIT(%d)", e->arg); break;
+	case E_EXIT: snprintf(buf, bsz, e->arg2 ? "KILLED(%d)" : "EXIT(%d)", e->arg); break;
 	case E_STOP: snprintf(buf, bsz, "STOP+CONT(%d)", e->arg); break;
 	case E_TICKX: snprintf(buf, bsz, "TICK(on-time)+EXIT(%d) in one loop iteration", e->arg); break;
-	case E_LIST: snprintf(buf, bsz, "LIST(%u%s)", users[e->user], e->arg == 1 ? " as other" : ""); break;
-	case E_SCHED: snprintf(buf, bsz, "SCHED(%u)", users[e->user]); break;
+	case E_LIST: snprintf(buf, bsz, "LIST(%u%s%s%s)", users[e->user], e->arg == 1 ? " as other" : "", e->arg2 ? " ?tuid=" : "", e->arg2 ? uids[e->arg2 - 1] : ""); break;
+	case E_SCHED: snprintf(buf, bsz, "SCHED(%u%s%s)", users[e->user], e->arg2 ? " ?tuid=" : "", e->arg2 ? uids[e->arg2 - 1] : ""); break;
 	}
 	return buf;
 }
@@ -271,7 +279,7 @@ evname(char *buf, size_t bsz, const struct ev_s *e)
 static const char*
 evkind(const struct ev_s *e)
 {
-	static const char *const k[] = {"ADD", "CANCEL", "TICK-ontime", "TICK-idle", "TICK-late", "EXIT", "LIST", "SCHED", "ADDOWN", "ADD2", "TICK-exact", "TICK-spawnfail", "STOP", "TICK+EXIT", "ADD-client-gone", "ADD-unknown-peer", "ADD-userdb-fails", "ADD-nameless"};
+	static const char *const k[] = {"ADD", "CANCEL", "TICK-ontime", "TICK-idle", "TICK-late", "EXIT", "LIST", "SCHED", "ADDOWN", "ADD2", "TICK-exact", "TICK-spawnfail", "STOP", "TICK+EXIT", "ADD-client-gone", "ADD-unknown-peer", "ADD-userdb-fails", "ADD-nameless", "ADD-two-revisions"};
 	return k[e->kind];
 }
 
@@ -297,7 +305,7 @@ enabled(struct ev_s *ev, int max)
 	if ((armed || zombies) && !(prop == 11 && narrow)) {
 		PUSH(E_TICK_ONTIME);
 	}
-	if (armed && prop == 12) {
+	if (armed && (prop == 12 || (prop == 4 && narrow))) {
 		/* deviation: the start of the one task that is due fails before a child exists */
 		int ndue = 0;
 		for (int i = 0; i < M_MAXT; i++) {
@@ -332,6 +340,8 @@ enabled(struct ev_s *ev, int max)
 		int dup = 0;
 		for (int j = 0; j < i; j++) dup |= !strcmp(M.chld[j].uid, M.chld[i].uid) && M.chld[j].gen == M.chld[i].gen;
 		if (!dup || prop == 12) PUSH(E_EXIT, 0, 0, i);
+		/* the executor itself is killed (OOM, an administrator): its slot is free again all the same */
+		if (!dup && prop == 12) PUSH(E_EXIT, 0, 0, i, 1);
 		/* the exit is noticed in the very iteration in which the next occurrence comes due */
 		if (!dup && armed && prop != 11) PUSH(E_TICKX, 0, 0, i);
 		/* deviation: the job is stopped and continued (job control, a debugger); it is still running */
@@ -351,8 +361,10 @@ enabled(struct ev_s *ev, int max)
 				/* one UID, two short schedules, on-time wake-ups only: room for long histories */
 				PUSH(E_ADD, u, k, 1);
 				PUSH(E_ADD, u, k, 2);
+				PUSH(E_ADD, u, k, 10);
 			} else if (prop == 4) {
 				for (int tp = 0; tp < 5; tp++) PUSH(E_ADD, u, k, tp);
+				if (k == 0) PUSH(E_ADD, u, k, 10);
 			} else if (prop == 12 && collide) {
 				/* three UIDs whose hashes force the table-growth path: limits 2, 1 and none */
 				PUSH(E_ADD, u, k, k == 0 ? 6 : k == 1 ? 5 : 7);
@@ -416,6 +428,15 @@ enabled(struct ev_s *ev, int max)
 			PUSH(E_LIST, u, 0, 0);
 			PUSH(E_LIST, u, 0, 1);
 			PUSH(E_SCHED, u);
+			/* the same asked for one UID (what echsq list/next TUID send), own or not */
+			for (int k = 0; k < 3; k++) {
+				if (m_find(uids[k])) {
+					PUSH(E_LIST, u, 0, 0, 1 + k);
+					PUSH(E_SCHED, u, 0, 0, 1 + k);
+				}
+			}
+			/* two revisions of one UID in one request: the first all in the past, the second to come */
+			PUSH(E_ADDREV, u, 0, 0);
 		}
 	}
 	if (prop == 11 && !narrow) {
@@ -675,6 +696,27 @@ apply(const struct ev_s *e)
 		}
 		break;
 	}
+	case E_ADDREV: {
+		const unsigned u = users[e->user];
+		struct mtask_s *t = m_find(uids[e->uid]);
+		size_t o = (size_t)snprintf(req, sizeof(req), "BEGIN:VCALENDAR\nVERSION:2.0\nMETHOD:PUBLISH\n");
+		o = mk_add(req, sizeof(req), uids[e->uid], &tpls[3], "", o);
+		o = mk_add(req, sizeof(req), uids[e->uid], &tpls[0], "", o);
+		o += (size_t)snprintf(req + o, sizeof(req) - o, "END:VCALENDAR\n");
+		hx_request(&rp, u, req, o);
+		{
+			const int ok = t == NULL || t->owner == u;
+			if (rp.nsucc != (ok ? 2 : 0) || rp.nfail != (ok ? 0 : 2)) {
+				snprintf(shape, sizeof(shape), "%s/%s", k, rp.nsucc + rp.nfail != 2 ? "count" : rp.nsucc ? "accepted" : "refused");
+				report("reply", shape, "two revisions of %s by %u: %d success / %d failure replies, expected %s", uids[e->uid], u, rp.nsucc, rp.nfail, ok ? "2 successes" : "2 failures");
+			}
+			if (ok) {
+				if (t == NULL) t = m_new(uids[e->uid]);
+				m_load(t, &tpls[0], u, 0);
+			}
+		}
+		break;
+	}
 	case E_ADDNOID: {
 		const unsigned u = users[e->user];
 		char st[32];
@@ -736,7 +778,9 @@ apply(const struct ev_s *e)
 	case E_SCHED: {
 		const unsigned u = users[e->user];
 		size_t o;
-		if (e->kind == E_SCHED) {
+		if (e->arg2) {
+			o = (size_t)snprintf(req, sizeof(req), "GET /%s?tuid=%s HTTP/1.1\r\n\r\n", e->kind == E_SCHED ? "sched" : "queue", uids[e->arg2 - 1]);
+		} else if (e->kind == E_SCHED) {
 			o = (size_t)snprintf(req, sizeof(req), "GET /sched HTTP/1.1\r\n\r\n");
 		} else if (e->arg == 1) {
 			o = (size_t)snprintf(req, sizeof(req), "GET /u/%u/queue HTTP/1.1\r\n\r\n", u == 1000 ? 1001 : 1000);
@@ -763,7 +807,7 @@ apply(const struct ev_s *e)
 			if (listed && (t == NULL || t->owner != view)) {
 				snprintf(shape, sizeof(shape), "%s/%s", k, t == NULL ? "stale" : "foreign");
 				report("list-leak", shape, "reply to %u lists %s which %s", u, uids[q], t ? "belongs to another user" : "is not queued");
-			} else if (!listed && t && t->owner == view && !(e->kind == E_LIST && e->arg == 1) &&
+			} else if (!listed && t && t->owner == view && !(e->kind == E_LIST && e->arg == 1) && (!e->arg2 || e->arg2 - 1 == q) &&
 				   /* an exhausted task has nothing left to show in the queue file */
 				   (e->kind == E_SCHED || (!t->zombie && t->next < t->nocc))) {
 				snprintf(shape, sizeof(shape), "%s", k);
@@ -889,7 +933,7 @@ apply(const struct ev_s *e)
 			snprintf(shape, sizeof(shape), "after=%s", k);
 			report("child-unwatched", shape, "execution %d is not watched by the daemon", pid);
 		} else {
-			hx_exit_child(hi, 0);
+			hx_exit_child(hi, e->arg2 ? 9 : 0);
 		}
 		break;
 	}
